@@ -15,9 +15,8 @@ import (
 	. "verif/harness/lib"
 )
 
-const KeyCbSwallowedOog = "C40-contract-swallows-oog-returns-nil-writes-kept"
-
 func cbMonitor(r *Rng, n int, report func(Viol)) {
+	cbStackMonitor(report)
 	e := newCbExec()
 	check := func(in M) {
 		out, _ := Safe(func() any { return e.Do(in) }).(M)
@@ -47,9 +46,6 @@ func cbMonitor(r *Rng, n int, report func(Viol)) {
 		}
 		failed := oog || beh != "ok"
 		retry := exec < commit
-		// the contract reports success although it ran past the limit (it swallowed the out-of-gas
-		// panic): whether its writes must be discarded is the subject of the keyed finding below
-		swallowedOk := oog && catch == "ok"
 		switch entry {
 		case "ack", "timeout", "writeAck":
 			switch {
@@ -66,11 +62,8 @@ func cbMonitor(r *Rng, n int, report func(Viol)) {
 					v("", "source callback failure blocked the acknowledgement / timeout")
 				}
 				if failed && wrote {
-					if swallowedOk {
-						v(KeyCbSwallowedOog, "source callback ran out of gas (no retry), the contract keeper swallowed the out-of-gas panic and returned nil: ProcessCallback reports ErrCallbackOutOfGas but the callback's state changes were already written (writeFn before the IsPastLimit check)")
-					} else {
-						v("", "failed source callback's state changes were not discarded")
-					}
+					// includes the regression of fix 7bc25b2 (contract swallows its out-of-gas panic, returns nil)
+					v("", "failed source callback's state changes were not discarded")
 				}
 				if !failed && !wrote {
 					v("", "successful callback's state changes were dropped")
